@@ -5,6 +5,7 @@
 mod e_builder;
 mod e_client;
 mod e_conn;
+mod e_connhandler;
 mod e_codec;
 mod e_convert;
 mod e_handler;
@@ -63,6 +64,7 @@ fn run_engine(engine: &str, seed: u64, n: usize, tier: &str) {
         "net" => e_net::run(seed, n, tier),
         "node" => e_node::run(seed, n, tier),
         "conn" => e_conn::run(seed, n, tier),
+        "connhandler" => e_connhandler::run(seed, n, tier),
         "stream" => e_stream::run(seed, n, tier),
         "srvsplit" => e_srvsplit::run(seed, n, tier),
         "handler" => e_handler::run_client(seed, n, tier),
